@@ -23,7 +23,7 @@ static CRC128: crc::Crc<u128> = crc::Crc::<u128>::new(&crc::CRC_82_DARC);
 
 /// stack ids: 0 bare, 1 Cobs, 2..=6 Crc(w), 7..=11 Crc(w) over Cobs
 pub const N_STACKS: usize = 12;
-pub const N_STORAGES: usize = 3;
+pub const N_STORAGES: usize = 5;
 
 fn crc_framing(i: usize) -> Framing {
     [Framing::Crc8, Framing::Crc16, Framing::Crc32, Framing::Crc64, Framing::Crc128][i]
@@ -60,6 +60,26 @@ macro_rules! run_stacks {
     }};
 }
 
+/// the stacks that do not need indexable storage (COBS patches its code bytes in place, so it cannot sit on a writer)
+macro_rules! run_stacks_streaming {
+    ($t:expr, $stack:expr, $mk:expr, $conv:expr) => {{
+        let t = $t;
+        match $stack {
+            0 => serialize_with_flavor(t, $mk).map($conv),
+            2 => serialize_with_flavor(t, CrcModifier::new($mk, CRC8.digest())).map($conv),
+            3 => serialize_with_flavor(t, CrcModifier::new($mk, CRC16.digest())).map($conv),
+            4 => serialize_with_flavor(t, CrcModifier::new($mk, CRC32.digest())).map($conv),
+            5 => serialize_with_flavor(t, CrcModifier::new($mk, CRC64.digest())).map($conv),
+            6 => serialize_with_flavor(t, CrcModifier::new($mk, CRC128.digest())).map($conv),
+            _ => unreachable!(),
+        }
+    }};
+}
+
+pub fn streaming_stack(stack: usize) -> bool {
+    stack == 0 || (2..=6).contains(&stack)
+}
+
 thread_local! {
     static ARENA: RefCell<GuardArena> = RefCell::new(GuardArena::new(1 << 16));
 }
@@ -74,7 +94,28 @@ fn run_stack(t: &Typed, stack: usize, storage: usize, exact_len: usize, flush: F
             run_stacks!(t, stack, Slice::new(buf), |s: &mut [u8]| s.to_vec())
         }),
         1 => run_stacks!(t, stack, HVec::<4096>::default(), |v: heapless07::Vec<u8, 4096>| v.to_vec()),
-        _ => run_stacks!(t, stack, AllocVec::new(), |v: Vec<u8>| v),
+        2 => run_stacks!(t, stack, AllocVec::new(), |v: Vec<u8>| v),
+        // a std::io writer that takes 1-5 bytes per call and reports Interrupted now and then
+        3 => run_stacks_streaming!(
+            t,
+            stack,
+            postcard::ser_flavors::io::WriteFlavor::new(crate::iodoubles::ChunkWriter::new(
+                crate::iodoubles::Schedule { chunks: vec![1 + exact_len % 4, 1, 5], interrupt_every: if exact_len % 2 == 0 { 0 } else { 4 } },
+                crate::iodoubles::Fault::None,
+                false
+            )),
+            |w: crate::iodoubles::ChunkWriter| w.accepted
+        ),
+        // a byte slice used as std::io writer, of exactly the output length
+        _ => {
+            let mut sink = vec![0xEEu8; exact_len];
+            let left = {
+                let r = run_stacks_streaming!(t, stack, postcard::ser_flavors::io::WriteFlavor::new(&mut sink[..]), |rest: &mut [u8]| rest.len());
+                r?
+            };
+            sink.truncate(exact_len - left);
+            Ok(sink)
+        }
     }
 }
 
@@ -141,6 +182,9 @@ pub fn check_stacks(shape: &Shape, value: &Value, l: &mut Local) -> CaseResult {
             continue;
         }
         for storage in 0..N_STORAGES {
+            if storage >= 3 && !streaming_stack(stack) {
+                continue;
+            }
             let cj = || {
                 let mut j = case_json(shape, value);
                 j["stack"] = json!(stack);
@@ -158,6 +202,15 @@ pub fn check_stacks(shape: &Shape, value: &Value, l: &mut Local) -> CaseResult {
                         format!("stack {} over storage {}: {:?}; composing the reference transforms gives {}", stack, storage, other.map(|b| hex(&b)), hex(&want)),
                         cj(),
                     ))
+                }
+            }
+            // a writer with room for one byte less than the output: the stack reports an error (never a truncated success)
+            if storage == 4 && !want.is_empty() {
+                let mut sink = vec![0xEEu8; want.len() - 1];
+                let r = no_panic(|| run_stacks_streaming!(&t, stack, postcard::ser_flavors::io::WriteFlavor::new(&mut sink[..]), |rest: &mut [u8]| rest.len()))
+                    .map_err(|p| fail("stack", format!("stack {} over a too-small io sink panicked: {}", stack, p), cj()))?;
+                if r.is_ok() {
+                    return Err(fail("stack", format!("stack {} over an io sink with room for {} of {} bytes reported success", stack, want.len() - 1, want.len()), cj()));
                 }
             }
             if storage == 2 && !shape.encoder_only() {
